@@ -27,7 +27,7 @@ import numpy as np
 from jsim import util
 from jsim.core import Stats, Violation, shrink
 
-CONSTANT_KEY_GENS = ("toy", "csv", "dummy", "toyrot", "toynorot", "simple")
+CONSTANT_KEY_GENS = ("toy", "csv", "dummy", "toyrot", "toynorot", "simple", "boxed")
 EAGER_OK = {"Game2048", "SlidingTilePuzzle", "Maze", "Snake", "TSP", "Knapsack", "Minesweeper", "GraphColoring", "RubiksCube", "CVRP",
             "Tetris", "Sudoku"}
 
